@@ -302,6 +302,10 @@ func parent(id, tier string) int {
 		deadlineS = 3300
 	}
 	deadlineS = envInt("VERIF_DEADLINE_S", deadlineS)
+	graceS := envInt("VERIF_GRACE_S", 180) // how long after its deadline a worker may still be finishing its current unit
+	if tier == "thorough" {
+		graceS = envInt("VERIF_GRACE_S", 600)
+	}
 	mem := p.MemKB
 	if mem == 0 {
 		mem = 8 << 20
@@ -333,7 +337,7 @@ func parent(id, tier string) int {
 				go func() {
 					select {
 					case <-done:
-					case <-time.After(time.Duration(deadlineS+envInt("VERIF_GRACE_S", 180)) * time.Second):
+					case <-time.After(time.Duration(deadlineS+graceS) * time.Second):
 						stuck = true
 						syscall.Kill(-cmd.Process.Pid, syscall.SIGKILL)
 					}
@@ -345,7 +349,7 @@ func parent(id, tier string) int {
 			mu.Lock()
 			defer mu.Unlock()
 			if stuck {
-				died = append(died, fmt.Sprintf("worker %d was stopped %d s after its deadline: a work unit never returned (blocked outside the harness's control); what the other workers found is kept", w, envInt("VERIF_GRACE_S", 180)))
+				died = append(died, fmt.Sprintf("worker %d was stopped %d s after its deadline: a work unit never returned (blocked outside the harness's control); what the other workers found is kept", w, graceS))
 				return
 			}
 			if rerr != nil {
